@@ -7,6 +7,7 @@ import (
 
 // LCC is a Lambert Conformal Conic projection.
 func LCC(this *SR) (forward, inverse Transformer, err error) {
+	this.defaultOrigin()
 
 	//double c_lat;                   /* center latitude                      */
 	//double c_lon;                   /* center longitude                     */
